@@ -75,7 +75,8 @@ def make_packages(rng, n):
     for k in range(n):
         user = struct("User", [
             fld("Age", ["//govalid:gt=%d" % (k % 3), "//govalid:lte=150"] if k % 2 == 0 else ["//govalid:gte=1"], i64),
-            fld("Name", ["//govalid:required"] + (["//govalid:minlength=2"] if k % 3 == 0 else []), s),
+            # the deprecated spelling in every package (whatever the analyzers keep about it is touched by all of them at once)
+            fld("Name", ["// +govalid:required"] + (["// +govalid:minlength=2"] if k % 3 == 0 else []), s),
             fld("Addr", [], nested=[fld("City", ["//govalid:required"], s), fld("Zip", ["//govalid:numeric"] if k % 2 else ["//govalid:length=5"], s)]),
             fld("Tags", ["//govalid:maxitems=%d" % (k + 1)], SLICE),
             # equally named CEL / enum rules whose text differs per package: nothing derived from one may reach another
@@ -84,7 +85,8 @@ def make_packages(rng, n):
         order = struct("Order", [fld("Total", ["//govalid:gt=0"], f64), fld("Name", ["//govalid:required", "//govalid:alpha"], s),
                                  fld("Note", ["//govalid:cel=value.startsWith('n%d') || value == ''" % k], s)], [],
                        gendoc=["//govalid:required"] if k % 4 == 1 else [])
-        own = struct("Own%d" % k, [fld("Name", ["//govalid:email"], s), fld("Age", ["//govalid:lt=%d" % (k + 10)], i64)], [], file="y")
+        own = struct("Own%d" % k, [fld("Name", ["// +govalid:email"], s), fld("Age", ["// +govalid:lt=%d" % (k + 10)], i64)] +
+                     [fld("L%d" % j, ["// +govalid:required", "// +govalid:maxlength=%d" % (j + 3)], s) for j in range(8)], [], file="y")
         from synth import named
         aux, level = named("Level", [i64, s, f64, SLICE][k % 4])
         cfg = struct("Config", [fld("Level", ["//govalid:required"], level), fld("Name", ["//govalid:required"], s)], [])   # same file as the type Level: the single-file form sees only that file
